@@ -193,6 +193,14 @@ def independent_ecies(vc):
         if o.returned or not isinstance(o.exc, ValueError):
             bad.append((bx % 1000, by % 1000, repr(o.exc) if not o.returned else "accepted"))
     vc.prove("off-curve/out-of-range/zero-points-refused", not bad, repr(bad))
+    # the byte after the selector is the uncompressed-point marker 04 and nothing else
+    wrong = []
+    for mk in (0x00, 0x02, 0x03, 0x05, 0x06, 0x07, 0x40, 0x84, 0xFF):
+        vc.tick()
+        o = vc.call(M.InitEccAuthBlock.unpack, bytes([sel, mk]) + block[2:], [M.EccDecryptor(sel, priv)])
+        if o.returned or not isinstance(o.exc, ValueError):
+            wrong.append((hex(mk), "accepted" if o.returned else repr(o.exc)))
+    vc.prove("point-marker-other-than-04-refused", not wrong, repr(wrong))
 
 
 # ---------------------------------------------------------------------------------------
